@@ -479,8 +479,18 @@ def background(rng, pol, peer, keep):
             pol[k] = v
 
 
-def exhaustive_cases(rng):
+def exhaustive_cases(rng, thorough=False):
     """The small universe, one focus field at a time, every (policy value, peer value, flag) combination of the focus."""
+    if thorough:
+        # host keys over FOUR names with every optional subset (248k pairs; correspondence on a slice, see run)
+        U4 = KEYU + ['hd']
+        L = lists_upto(U4, 3)
+        OPT = [None] + subsets(U4)
+        for pl in [None] + L:
+            for al in L:
+                for opt in OPT:
+                    for subset in (False, True):
+                        yield 'key4', new_pol(host_keys=pl, optional_host_keys=opt, subset=subset), new_peer(key=al)
     # key exchanges: all lists of length <= 3 over 4 names (two of them the strict-kex markers)
     L = lists_upto(KEXU, 3)
     for pl in [None] + L:
@@ -786,15 +796,15 @@ def run(ctx):
 
     # ---- 1. the small universe, exhaustively (oracle on every pair; correspondence on every pair in thorough, on a seeded 10% slice in quick)
     n_ex = 0
-    for focus, pol, peer in exhaustive_cases(rng):
+    for focus, pol, peer in exhaustive_cases(rng, not q):
         n_ex += 1
-        corr = (not q) or rng.random() < 0.10
+        corr = ((not q) or rng.random() < 0.10) if focus != 'key4' else rng.random() < 0.04
         r = one(pol, peer, focus, corr, via_text=(n_ex % 7 == 0))
         if n_ex % 9973 == 1 and len(samples) < 8:
             samples.append({'focus': focus, 'policy': pol, 'peer': peer, 'passed': r[0], 'errors': [e['mismatched_field'] for e in r[1]]})
     ctx.extra['small_universe_pairs'] = n_ex
     # ---- 2. random large instances (real algorithm names; tricky names: blanks, int-like, non-ASCII, separators)
-    n_rand = 1500 if q else 20000
+    n_rand = 1500 if q else 40000
     for i in range(n_rand):
         tricky = i % 3 == 0
         pol, peer = random_case(rng, tricky)
@@ -814,7 +824,7 @@ def run(ctx):
         if len(samples) < 12:
             samples.append({'focus': 'witness', 'policy': pol, 'peer': peer, 'passed': r[0], 'errors': [e['mismatched_field'] for e in r[1]]})
     # ---- 3. oracle-only random instances (no Coq side): many more
-    for i in range(5000 if q else 300000):
+    for i in range(5000 if q else 600000):
         pol, peer = random_case(rng, i % 4 == 0)
         P = mk_policy_fields(pol)
         ret, errs, estr, bstr = impl_eval(P, peer)
@@ -829,7 +839,7 @@ def run(ctx):
         wiring_inprocess(ctx, orc, pol, peer, (ret, errs, estr), bstr)
     n_cli = 0
     tries = 0
-    want_cli = 6 if q else 60
+    want_cli = 6 if q else 100
     while n_cli < want_cli and tries < want_cli * 20:
         tries += 1
         pol, peer = random_case(rng, False)
@@ -883,7 +893,7 @@ def run(ctx):
     ctx.exhaustive = not q
     ctx.notes.append('C06: the small universe (lists of length <= 3 over 3-4 names per field incl. both strict-kex markers, optional-host-key subsets, '
                      'all flag combinations, size entries over boundary values) is enumerated completely one focus field at a time with the other fields drawn at random; '
-                     'the oracle judges every pair in both tiers, the Coq correspondence every pair in thorough and a seeded 10% slice in quick')
+                     'the oracle judges every pair in both tiers, the Coq correspondence every pair in thorough and a seeded 10% slice in quick; thorough adds host keys over 4 names x all 16 optional subsets (oracle on all 248k pairs, correspondence on a 4% slice)')
     ctx.cover(orc.n + len(terms), orc.nontriv, samples,
               'every (policy value, peer value, flags) combination of one focus field over the small universe (kex 4 names, host keys 3 names x optional subsets, ciphers/MACs/compressions 3 names, '
               'banner x missing KEXINIT, host-key/CA entries over 6x3x4 values x absent, two-type modulus maps over 6 sizes), others random; random large instances over real and tricky names; '
